@@ -1,6 +1,8 @@
 """C19 - Evaluations are pure: no hidden state, no input mutation, any process."""
 import copy
 
+import math
+
 import numpy as np
 from hypothesis import strategies as st
 
@@ -29,7 +31,7 @@ ASSUMPTIONS = [
     'changes to that model; likelihoods, predictive models and controllers are',
     'the OS schedules the worker processes of pints.ParallelEvaluator; the harness generates the batches and worker '
     'counts, it does not control interleavings inside the evaluator']
-REQUIRED = ['backend:analytic', 'backend:pkpd', 'mutation', 'grad_then_value', 'parallel', 'reduced_call', 'sample_call',
+REQUIRED = ['first_evaluation_at_special_point', 'filter_sort_evaluate_sort', 'backend:analytic', 'backend:pkpd', 'mutation', 'grad_then_value', 'parallel', 'reduced_call', 'sample_call',
             'inplace_updates']
 MUT_ANALYTIC = ['m_outputs', 'm_names', 'm_sens', 'em_names', 'em_refix']
 MUT_PKPD = ['m_regimen', 'm_admin', 'm_outputs', 'm_sens', 'em_names']
@@ -456,6 +458,45 @@ def _process_state():
                 numpy_printoptions={k: str(v) for k, v in np.get_printoptions().items()}, cwd=os.getcwd())
 
 
+def _first_point_clause(case, seed):
+    import chi
+    from vf.analytic_model import AnalyticModel
+
+    def build(which):
+        lls = [chi.LogLikelihood(AnalyticModel(1, 2), [chi.GaussianErrorModel()], [np.array([1.0 + 0.2 * i, 1.4, 0.9])],
+                                 [np.array([0.5, 1.5, 2.5])]) for i in range(2)]
+        pop = [lambda: chi.ComposedPopulationModel([chi.GaussianModel(centered=False), chi.PooledModel(n_dim=2)]),
+               lambda: chi.ComposedPopulationModel([chi.GaussianModel(n_dim=2, centered=False), chi.PooledModel()]),
+               lambda: chi.ComposedPopulationModel([chi.LogNormalModel(centered=False), chi.GaussianModel(centered=False),
+                                                    chi.PooledModel()])][which]()
+        return chi.HierarchicalLogLikelihood(lls, pop)
+    which = seed % 3
+    n = build(which).n_parameters()
+    nb = {0: 2, 1: 4, 2: 4}[which]
+    top_identity = {0: [0.0, 1.0, 0.8, 0.5], 1: [0.0, 0.0, 1.0, 1.0, 0.5], 2: [0.0, 1.0, 0.0, 1.0, 0.5]}[which]
+    later = np.concatenate([[0.4, -0.3, 0.8, 0.1][:nb], {0: [0.9, 0.4, 0.7, 0.3], 1: [0.8, 0.6, 0.3, 0.2, 0.4],
+                                                            2: [-0.2, 0.3, 0.7, 0.2, 0.4]}[which]])
+    firsts = [np.concatenate([[0.7, 0.9, 0.6, 0.8][:nb], top_identity]),
+              np.concatenate([np.zeros(nb), later[nb:]]), np.ones(n)]
+    fresh = build(which)
+    want_v, (want_s, want_g) = fresh(later.copy()), build(which).evaluateS1(later.copy())
+    case.close(want_s, want_v, rtol=1e-12, what='score of evaluateS1 vs plain evaluation on new objects')
+    for k, x0 in enumerate(firsts):
+        for mode in ('S1', 'call'):
+            H = build(which)
+            if mode == 'S1':
+                H.evaluateS1(x0.copy())
+            else:
+                H(x0.copy())
+            sc, g = H.evaluateS1(later.copy())
+            what = 'composition %d, first evaluation (%s) at special point %d' % (which, mode, k)
+            case.close(sc, want_s, rtol=1e-12, what='score of evaluateS1 afterwards (%s)' % what)
+            case.close(np.asarray(g, dtype=float), np.asarray(want_g, dtype=float), rtol=1e-12,
+                       what='gradient of evaluateS1 afterwards (%s)' % what)
+            case.close(H(later.copy()), want_v, rtol=1e-12, what='plain evaluation afterwards (%s)' % what)
+    case.labels.append('first_evaluation_at_special_point')
+
+
 def check(case):
     import pints
     s = case.spec
@@ -543,6 +584,49 @@ def check(case):
                     break
                 buf[j] *= 1.013          # in place: the same array object is passed again
 
+    # the first evaluation of a hierarchical likelihood happens at a special point (the standard normal population
+    # mu = 0, sigma = 1, where a non-centred Gaussian transformation is the identity; all fluctuations zero; all ones): what an
+    # object returns later does not depend on where it was evaluated first
+    if s['backend'] == 'analytic':
+        with case.clause('first_evaluation_at_special_point'):
+            _first_point_clause(case, s['seed'])
+
+    # a filter that is sorted, evaluated, sorted again and evaluated: the evaluation in between changes nothing
+    if s['backend'] == 'analytic':
+        with case.clause('filter_sort_evaluate_sort'):
+            import chi
+            obs = np.array([[[1.0 + 0.3 * math.sin(1.0 + 1.7 * i + 0.9 * r + 2.3 * j) for j in range(4)] for r in range(2)]
+                            for i in range(3)])
+            sims = [np.array([[[1.1 + 0.4 * math.sin(0.5 + 1.3 * q + 0.7 * r + 1.9 * j + 0.37 * v) for j in range(4)]
+                               for r in range(2)] for q in range(6)]) for v in range(2)]
+            orders = [[2, 0, 3, 1], [1, 3, 0, 2], [3, 2, 1, 0]]
+            o1, o2 = orders[s['seed'] % 3], orders[(s['seed'] + 1) % 3]
+            makers = [lambda: chi.ComposedPopulationFilter([chi.GaussianFilter(obs[:, :, :2].copy()),
+                                                            chi.GaussianFilter(obs[:, :, 2:].copy())]),
+                      lambda: chi.ComposedPopulationFilter([chi.LogNormalFilter(obs[:, :, :1].copy()),
+                                                            chi.GaussianFilter(obs[:, :, 1:3].copy()),
+                                                            chi.GaussianKDEFilter(obs[:, :, 3:].copy())]),
+                      lambda: chi.GaussianFilter(obs.copy())]
+            for m, mk in enumerate(makers):
+                A, B = mk(), mk()
+                A.sort_times(np.array(o1))
+                if (s['seed'] + m) % 2:
+                    A.compute_log_likelihood(sims[0].copy())
+                else:
+                    A.compute_sensitivities(sims[0].copy())
+                A.sort_times(np.array(o2))
+                B.sort_times(np.array(o1))
+                B.sort_times(np.array(o2))
+                what = 'filter %d sorted by %r, evaluated, sorted by %r vs the same filter sorted twice without an evaluation ' \
+                       'in between' % (m, o1, o2)
+                case.close(A.compute_log_likelihood(sims[1].copy()), B.compute_log_likelihood(sims[1].copy()), rtol=1e-12,
+                           what='log-likelihood of ' + what)
+                ga, gb = A.compute_sensitivities(sims[1].copy()), B.compute_sensitivities(sims[1].copy())
+                case.close(ga[0], gb[0], rtol=1e-12, what='score of ' + what)
+                case.close(np.asarray(ga[1], dtype=float), np.asarray(gb[1], dtype=float), rtol=1e-12,
+                           what='sensitivities of ' + what)
+            case.labels.append('filter_sort_evaluate_sort')
+
     # the same for a covariate population model: one parameter array and one covariate array updated in place
     if hasattr(fam, 'CP'):
         with case.clause('inplace_argument_updates'):
@@ -618,3 +702,7 @@ def check(case):
                 again = pints.SequentialEvaluator(obj).evaluate(xs)
                 case.close(np.array(again, dtype=float), np.array(seq, dtype=float), rtol=1e-12,
                            what='sequential evaluation after a parallel one (%s)' % type(obj).__name__)
+
+
+RULE += (' Classes and clauses added in later rounds of the seeded-change protocol (DESIGN 9.4) are named in REQUIRED '
+         'and in seeded/HISTORY.json; the evidence counts every one of them under classes.')
